@@ -95,6 +95,31 @@ def curvRun (interp : Interp) (crop : Arr2 Rat → Arr2 Rat) (cfg : CurvCfg) :
   | st, [], a => (curvStep interp crop cfg st a).2
   | st, h :: hs, a => curvRun interp crop cfg (curvStep interp crop cfg st h).1 hs a
 
+/-- `use_cache = True`: the grid is additionally kept in a FILE shared by every object with the same `cache` path. State =
+(in-memory cache of the current object, file content); `fresh` = the call is made on a newly constructed object. The file
+is read once per object, and a cache for another input shape (memory or file) is recomputed and rewritten. -/
+def memAfterLoad (st : Option CurvCache × Option CurvCache) (fresh : Bool) : Option CurvCache :=
+  match (if fresh then none else st.1) with | none => st.2 | some c => some c
+
+def curvStepFile (interp : Interp) (crop : Arr2 Rat → Arr2 Rat) (cfg : CurvCfg)
+    (st : Option CurvCache × Option CurvCache) (fresh : Bool) (a : Arr2 Rat) :
+    (Option CurvCache × Option CurvCache) × Arr2 Rat :=
+  let mem1 := memAfterLoad st fresh
+  match mem1 with
+  | some (m0, m1, g) =>
+    if m0 = a.n0 ∧ m1 = a.n1 then ((mem1, st.2), curvApply interp g a)
+    else
+      let g' := curvGrid interp crop cfg a.n0 a.n1
+      ((some (a.n0, a.n1, g'), some (a.n0, a.n1, g')), curvApply interp g' a)
+  | none =>
+    let g' := curvGrid interp crop cfg a.n0 a.n1
+    ((some (a.n0, a.n1, g'), some (a.n0, a.n1, g')), curvApply interp g' a)
+
+def curvRunFile (interp : Interp) (crop : Arr2 Rat → Arr2 Rat) (cfg : CurvCfg) :
+    (Option CurvCache × Option CurvCache) → List (Bool × Arr2 Rat) → Bool → Arr2 Rat → Arr2 Rat
+  | st, [], fresh, a => (curvStepFile interp crop cfg st fresh a).2
+  | st, (f, h) :: hs, fresh, a => curvRunFile interp crop cfg (curvStepFile interp crop cfg st f h).1 hs fresh a
+
 /-- the tree before the fix: the grid of the FIRST array is re-used whatever the shape of later arrays -/
 def curvStepOld (interp : Interp) (crop : Arr2 Rat → Arr2 Rat) (cfg : CurvCfg)
     (st : Option (Arr2 Rat × Arr2 Rat)) (a : Arr2 Rat) : Option (Arr2 Rat × Arr2 Rat) × Arr2 Rat :=
@@ -132,6 +157,23 @@ def interpNearestShift (δ : Rat) : Interp := fun F r0 c0 =>
   else 0
 
 def interpNearest : Interp := interpNearestShift 0
+
+/-- `map_coordinates(order=1, mode="constant")` (the DEFAULT `interpolation_order` of CurvatureCorrection): zero outside
+[0, n−1] in either direction, bilinear interpolation of the four surrounding samples inside. `δ` moves only the domain test
+(the value is continuous inside). -/
+def interpLinearShift (δ : Rat) : Interp := fun F r0 c0 =>
+  let r := if ((r0.floor : Int) : Rat) = r0 then r0 else r0 + δ
+  let c := if ((c0.floor : Int) : Rat) = c0 then c0 else c0 + δ
+  if 0 ≤ r ∧ r ≤ (F.n0 : Rat) - 1 ∧ 0 ≤ c ∧ c ≤ (F.n1 : Rat) - 1 then
+    let i := r0.floor
+    let j := c0.floor
+    let fr := r0 - (i : Rat)
+    let fc := c0 - (j : Rat)
+    let g := fun (a b : Int) => F.get (clipInt a 0 ((F.n0 : Int) - 1)) (clipInt b 0 ((F.n1 : Int) - 1))
+    (1 - fr) * (1 - fc) * g i j + fr * (1 - fc) * g (i + 1) j + (1 - fr) * fc * g i (j + 1) + fr * fc * g (i + 1) (j + 1)
+  else 0
+
+def interpLinear : Interp := interpLinearShift 0
 
 /-! ### illumination -/
 
